@@ -19,8 +19,9 @@ from __future__ import annotations
 import schedtrace as st
 
 DRIVER = "C07"
-RULE = ("programs: 10 DAG shapes (independent branches, diamond, chain with rechunk and reduction, unstack, qr, rechunk, "
-        "reductions, region store, to_zarr, mixed) with seeded shapes <=6x4 and chunks; configurations: executor in "
+RULE = ("programs: 12 DAG shapes (independent branches, diamond, chain with rechunk and reduction, unstack, qr, rechunk, "
+        "reductions, region store, mixed, and three shapes with an op taking the same array twice plus a later-produced third "
+        "input: fused x*x+y, direct f(x,x,y), y from a rechunk — a fixed corpus of 12 such cases in parallel mode on threads runs in every tier) with seeded shapes <=6x4 and chunks; configurations: executor in "
         "{single-threaded, threads, processes(sampled)} x optimize_graph x compute_arrays_in_parallel x max_workers{1,2,4} x "
         "batch_size{None,1,2,3} x resume(12%); store write latency seeded up to 20 ms (search: 50 ms); non-trivial = some "
         "array produced by one op is read by another; distinct by (program, configuration)")
@@ -38,18 +39,34 @@ TRUSTED = ["modelled not verified: aiostream's `async with stream()` / `stream.m
 # cases
 # ----------------------------------------------------------------------------------------------
 
-C07_KINDS = ["branches", "diamond", "chain", "unstack", "qr", "rechunk", "reduce", "region", "mixed"]
+C07_KINDS = ["branches", "diamond", "chain", "unstack", "qr", "rechunk", "reduce", "region", "mixed"] + st.REPEAT_KINDS
+
+
+def fixed_corpus():
+    """Always run (both tiers): ops taking the same array on two edges (parallel edges of the MultiDiGraph) plus a third
+    input produced later by an op that cannot be fused away — fused and unfused, optimize on/off — in parallel mode on
+    threads, where a wrong generation shows as a premature read."""
+    import random
+    rng = random.Random(20260923)
+    cases = []
+    for kind in st.REPEAT_KINDS:
+        for opt in (True, False):
+            for workers, batch in ((4, None), (2, 2)):
+                prog = st.gen_program(rng, kind)
+                cases.append((prog, {"executor": "threads", "optimize_graph": opt, "compute_arrays_in_parallel": True,
+                                     "max_workers": workers, "batch_size": batch}))
+    return cases
 
 
 def gen_cases(rng, n, nproc):
-    cases = []
+    cases = fixed_corpus()
     for i in range(n):
         kind = C07_KINDS[i % len(C07_KINDS)] if i < 2 * len(C07_KINDS) else rng.choice(C07_KINDS)
         prog = st.gen_program(rng, kind, mismatch=True)  # region stores also with source chunks != target chunks (rechunk inserted)
         ex = "single-threaded" if rng.random() < 0.2 else "threads"
         cases.append((prog, st.gen_config(rng, ex)))
     for i in range(nproc):
-        prog = st.gen_program(rng, rng.choice(["diamond", "branches", "mixed", "unstack", "chain"]))
+        prog = st.gen_program(rng, rng.choice(["diamond", "branches", "mixed", "unstack", "chain"] + st.REPEAT_KINDS))
         cfg = st.gen_config(rng, "processes")
         cfg["max_workers"] = rng.choice([1, 2])
         cases.append((prog, cfg))
@@ -135,6 +152,14 @@ def corr(ctx):
         reqs.append("sched|%s|%s" % (dag, st.encode_order(f, True)))
         expect.append("topo=1 create=%s sched=%s" % ("-" if f["create"] is None else "1", st.show_sched(f["visit_gens"])))
         meta.append(("genSchedule = visit_node_generations, Gens and CreateFirst hold", r))
+        # the hypothesis checked on what the tree under test REALLY hands to its executors
+        cdag = st.encode_contracted(f)
+        reqs.append("gensok|%s|seq:%s" % (cdag, ",".join(map(str, f["visit_nodes"]))))
+        expect.append("topo=1")
+        meta.append(("checkGens holds on the real visit_nodes output (producers strictly earlier)", r))
+        reqs.append("gensok|%s|gen:%s" % (cdag, st.show_sched(f["visit_gens"])))
+        expect.append("topo=1")
+        meta.append(("checkGens holds on the real visit_node_generations output (producers in strictly earlier generations)", r))
         # trace inclusion
         toks = st.encode_trace(r["log"], f)
         reqs.append("accepts|%s|%s|%s" % (dag, st.encode_order(f, par), " ".join(toks)))
@@ -169,6 +194,15 @@ def check_run(ctx, r):
     names = f["names"]
     pa, po = st.producers(f)
     ctx.count({"oracle": case}, nontrivial=nontrivial(f), kind="oracle:" + kind_of(r))
+    if f["multi_edges"]:
+        ctx.dist["oracle:dag-with-parallel-edges"] += 1
+    # (0) the traversals of the tree under test: every executed producer of an op (over parallel edges too, at any distance
+    #     through skipped nodes) strictly earlier — for this DAG, whichever mode this run used
+    for what, gens in (("visit_nodes", [[o] for o in f["visit_nodes"]]), ("visit_node_generations", f["visit_gens"])):
+        bad = st.schedule_violations(f, gens)
+        if bad:
+            ctx.fail("%s: %s" % (what, bad[0][0]), dict(case, traversal=what, schedule=[[names[o] for o in g] for g in gens], **bad[0][1]))
+            return
     # (1) no chunk read of an array of the computation misses
     for seq, _pid, kind, key, extra in log:
         if kind == "H" and extra == "0":
